@@ -347,4 +347,306 @@ theorem initOne_spec {pi tiny : ℝ} (ht : 0 < tiny) {sh : Shape ℝ} {v : ℝ} 
     unfold nudgeHi at e g
     exact ⟨.r t, by simp [initOne, e], ⟨hb, hp, hs⟩, by simpa [TP.getOriginal, nudge, nudgeHi] using g⟩
 
+/-! ### lists of slots: `init`, `fireParameterChanged`, `setParameters` -/
+
+theorem mapM_ok {A B E : Type} {f : A → Except E B} {g : A → B} :
+    ∀ (l : List A), (∀ a ∈ l, f a = .ok (g a)) → l.mapM f = .ok (l.map g) := by
+  intro l
+  induction l with
+  | nil => intro _; rfl
+  | cons a l ih =>
+    intro h
+    have h1 := h a (by simp)
+    have h2 := ih (fun b hb => h b (by simp [hb]))
+    simp [List.mapM_cons, h1, h2, bind, Except.bind, pure, Except.pure]
+
+/-- per-slot invariant of a wrapper: the transform is the one `init_` builds for the constraint,
+the interval is wide enough, the stored values are accepted by the constraint -/
+structure SlotInv (tiny : ℝ) (s : Slot ℝ) : Prop where
+  m : Matches tiny s.shape s.tp
+  w : s.shape.Wide tiny
+  fp : s.shape.Accepts s.fp
+  fn : s.shape.Accepts s.fn
+
+/-- the two coordinate systems agree on a slot -/
+def Sync (pi : ℝ) (s : Slot ℝ) : Prop := s.fn = s.tp.getOriginal pi ∧ s.fp = s.fn
+
+/-- what `init` builds for one parameter -/
+def InitRel (pi tiny : ℝ) (p : Shape ℝ × ℝ) (s : Slot ℝ) : Prop :=
+  s.shape = p.1 ∧ s.fp = p.2 ∧ s.fn = p.2 ∧ Matches tiny p.1 s.tp ∧
+    s.tp.getOriginal pi = nudge tiny p.1 p.2
+
+theorem init_spec {pi tiny : ℝ} (ht : 0 < tiny) :
+    ∀ (ps : List (Shape ℝ × ℝ)), (∀ p ∈ ps, Admits tiny p.1 p.2) →
+      ∃ w, init pi tiny ps = .ok w ∧ List.Forall₂ (InitRel pi tiny) ps w := by
+  intro ps
+  induction ps with
+  | nil => intro _; exact ⟨[], rfl, List.Forall₂.nil⟩
+  | cons p ps ih =>
+    intro h
+    obtain ⟨w, hw, hrel⟩ := ih (fun q hq => h q (by simp [hq]))
+    obtain ⟨tp, e, hm, hg⟩ := initOne_spec (pi := pi) ht (h p (by simp))
+    refine ⟨{ tp := tp, shape := p.1, fp := p.2, fn := p.2 } :: w, ?_, ?_⟩
+    · unfold init at hw ⊢
+      simp [List.mapM_cons, e, hw, bind, Except.bind, pure, Except.pure]
+    · exact List.Forall₂.cons ⟨rfl, rfl, rfl, hm, hg⟩ hrel
+
+/-- `fireParameterChanged` over ℝ: every copy is refreshed with the back-transformed value, and no
+ConstraintException is raised -/
+theorem fire_real {pi tiny : ℝ} (ht : 0 < tiny) (w : W ℝ)
+    (h : ∀ s ∈ w, Matches tiny s.shape s.tp ∧ s.shape.Wide tiny) :
+    fire pi w = .ok (w.map (fun s => { s with fp := s.tp.getOriginal pi })) := by
+  unfold fire
+  apply mapM_ok
+  intro s hs
+  unfold fireOne
+  rw [paramSetC_real _ _ _ (matches_accepts ht (h s hs).1 (h s hs).2)]
+
+/-- one slot after `setParameters`, over ℝ.  `ch`: did any named coordinate change? -/
+noncomputable def setSlot (pi : ℝ) (ch : Bool) (s : Slot ℝ) (u : Option ℝ) : Slot ℝ :=
+  let tp' := match u with | some v => s.tp.setX v | none => s.tp
+  let fp' := if ch then tp'.getOriginal pi else s.fp
+  { tp := tp', shape := s.shape, fp := fp', fn := match u with | some _ => fp' | none => s.fn }
+
+theorem matchOne_real (s : Slot ℝ) (u : Option ℝ) :
+    matchOne s u = { s with tp := match u with | some v => s.tp.setX v | none => s.tp } := by
+  cases u with
+  | none => rfl
+  | some v =>
+    simp only [matchOne]
+    split_ifs with h
+    · rfl
+    · have : s.tp.x = v := by
+        by_contra hne; exact h ((neb_real _ _).mpr hne)
+      rw [← this, setX_self]
+
+theorem pushOne_real (s : Slot ℝ) (u : Option ℝ) :
+    pushOne s u = { s with fn := match u with | some _ => s.fp | none => s.fn } := by
+  cases u with
+  | none => rfl
+  | some v =>
+    simp only [pushOne]
+    split_ifs with h
+    · simp
+    · have : s.fn = s.fp := by
+        by_contra hne; exact h ((neb_real _ _).mpr hne)
+      cases s; simp_all
+
+/-- the state after the matching and (when something changed) the refresh -/
+noncomputable def midSlot (pi : ℝ) (ch : Bool) (s : Slot ℝ) (u : Option ℝ) : Slot ℝ :=
+  let tp' := match u with | some v => s.tp.setX v | none => s.tp
+  { s with tp := tp', fp := if ch then tp'.getOriginal pi else s.fp }
+
+theorem zipWith_map_left {A B C D : Type} (g : A → B → C) (r : C → D) :
+    ∀ (l : List A) (m : List B), (List.zipWith g l m).map r = List.zipWith (fun a b => r (g a b)) l m := by
+  intro l
+  induction l with
+  | nil => intro m; simp
+  | cons a l ih => intro m; cases m <;> simp [ih]
+
+theorem forall_zipWith {A B C : Type} {g : A → B → C} {P : A → Prop} {Q : C → Prop}
+    (h : ∀ a b, P a → Q (g a b)) :
+    ∀ (l : List A) (m : List B), (∀ a ∈ l, P a) → ∀ c ∈ List.zipWith g l m, Q c := by
+  intro l
+  induction l with
+  | nil => intro m _ c hc; simp at hc
+  | cons a l ih =>
+    intro m hl c hc
+    cases m with
+    | nil => simp at hc
+    | cons b m =>
+      simp only [List.zipWith_cons_cons, List.mem_cons] at hc
+      rcases hc with rfl | hc
+      · exact h a b (hl a (by simp))
+      · exact ih m (fun x hx => hl x (by simp [hx])) c hc
+
+theorem zipWith_zipWith_left {A B C D : Type} (g : A → B → C) (k : C → B → D) :
+    ∀ (l : List A) (m : List B),
+      List.zipWith k (List.zipWith g l m) m = List.zipWith (fun a b => k (g a b) b) l m := by
+  intro l
+  induction l with
+  | nil => intro m; simp
+  | cons a l ih => intro m; cases m <;> simp [ih]
+
+theorem any_zipWith_false {A B : Type} {g : A → B → Bool} {P : A → Prop}
+    (h : ∀ a b, P a → g a b = false) :
+    ∀ (l : List A) (m : List B), (∀ a ∈ l, P a) → (List.zipWith g l m).any id = false := by
+  intro l
+  induction l with
+  | nil => intro m _; simp
+  | cons a l ih =>
+    intro m hl
+    cases m with
+    | nil => simp
+    | cons b m =>
+      simp only [List.zipWith_cons_cons, List.any_cons, id, Bool.or_eq_false_iff]
+      exact ⟨h a b (hl a (by simp)), ih m (fun x hx => hl x (by simp [hx]))⟩
+
+/-- `setParameters` over ℝ never raises on a wrapper satisfying the invariant, and its result is
+`setSlot` slot by slot -/
+theorem set_real {pi tiny : ℝ} (ht : 0 < tiny) (w : W ℝ) (upd : List (Option ℝ))
+    (hinv : ∀ s ∈ w, SlotInv tiny s) (hlen : upd.length = w.length) :
+    Reparam.set pi w upd =
+      .ok (List.zipWith (setSlot pi ((List.zipWith changed w upd).any id)) w upd) := by
+  unfold Reparam.set
+  rw [if_neg (by simpa using hlen)]
+  generalize (List.zipWith changed w upd).any id = ch
+  -- the matching step
+  have hmatch : List.zipWith matchOne w upd
+      = List.zipWith (fun s u => ({ s with tp := match u with | some v => s.tp.setX v | none => s.tp } : Slot ℝ)) w upd := by
+    congr 1; funext s u; exact matchOne_real s u
+  -- the refresh step
+  have hmid : (if ch then fire pi (List.zipWith matchOne w upd) else .ok (List.zipWith matchOne w upd))
+      = .ok (List.zipWith (midSlot pi ch) w upd) := by
+    cases ch
+    · simp only [Bool.false_eq_true, if_false, hmatch]
+      congr 1
+    · simp only [if_true]
+      rw [fire_real ht, hmatch, zipWith_map_left]
+      · congr 1
+      · rw [hmatch]
+        refine forall_zipWith (P := SlotInv tiny)
+          (Q := fun c : Slot ℝ => Matches tiny c.shape c.tp ∧ c.shape.Wide tiny) ?_ w upd hinv
+        intro s u hs
+        refine ⟨?_, hs.w⟩
+        cases u with
+        | none => exact hs.m
+        | some v => exact matches_setX hs.m v
+  simp only [hmid]
+  -- no rejected value is pushed
+  have hbad : (List.zipWith pushBad (List.zipWith (midSlot pi ch) w upd) upd).any id = false := by
+    rw [zipWith_zipWith_left]
+    apply any_zipWith_false (P := SlotInv tiny) _ w upd hinv
+    intro s u hs
+    cases u with
+    | none => rfl
+    | some v =>
+      simp only [pushBad, midSlot, Bool.not_eq_false']
+      rw [isCorrect_iff]
+      cases ch
+      · simpa using hs.fp
+      · simpa using matches_accepts ht (matches_setX hs.m v) hs.w
+  rw [if_neg (by simp [hbad])]
+  congr 1
+  rw [zipWith_zipWith_left]
+  congr 1
+  funext s u
+  rw [pushOne_real]
+  cases u <;> rfl
+
+theorem setSlot_inv {pi tiny : ℝ} (ht : 0 < tiny) (ch : Bool) (s : Slot ℝ) (u : Option ℝ)
+    (hs : SlotInv tiny s) : SlotInv tiny (setSlot pi ch s u) := by
+  cases u with
+  | none =>
+    cases ch
+    · exact ⟨hs.m, hs.w, by simpa [setSlot] using hs.fp, hs.fn⟩
+    · exact ⟨hs.m, hs.w, by simpa [setSlot] using matches_accepts ht hs.m hs.w, hs.fn⟩
+  | some v =>
+    have hm := matches_setX hs.m v
+    cases ch
+    · exact ⟨hm, hs.w, by simpa [setSlot] using hs.fp, by simpa [setSlot] using hs.fp⟩
+    · exact ⟨hm, hs.w, by simpa [setSlot] using matches_accepts ht hm hs.w,
+        by simpa [setSlot] using matches_accepts ht hm hs.w⟩
+
+theorem setSlot_sync {pi : ℝ} (ch : Bool) (s : Slot ℝ) (u : Option ℝ) (hs : Sync pi s)
+    (hch : ch = false → changed s u = false) : Sync pi (setSlot pi ch s u) := by
+  obtain ⟨h1, h2⟩ := hs
+  cases u with
+  | none =>
+    cases ch <;> simp [setSlot, Sync, h1, h2]
+  | some v =>
+    cases ch
+    · have hc := hch rfl
+      have hx : s.tp.x = v := by
+        by_contra hne
+        have : changed s (some v) = true := by simp [changed, hne]
+        rw [hc] at this; exact Bool.false_ne_true this
+      simp only [setSlot, Sync, Bool.false_eq_true, if_false]
+      rw [← hx, setX_self]
+      exact ⟨by rw [h2, h1], trivial⟩
+    · simp [setSlot, Sync]
+
+theorem sync_zipWith (pi : ℝ) (ch : Bool) :
+    ∀ (w : W ℝ) (upd : List (Option ℝ)), (∀ s ∈ w, Sync pi s) →
+      (ch = false → (List.zipWith changed w upd).any id = false) →
+      ∀ s' ∈ List.zipWith (setSlot pi ch) w upd, Sync pi s' := by
+  intro w
+  induction w with
+  | nil => intro upd _ _ s' hs'; simp at hs'
+  | cons s w ih =>
+    intro upd hw hch s' hs'
+    cases upd with
+    | nil => simp at hs'
+    | cons u upd =>
+      simp only [List.zipWith_cons_cons, List.mem_cons] at hs'
+      have hch' : ch = false → changed s u = false ∧ (List.zipWith changed w upd).any id = false := by
+        intro h
+        have := hch h
+        simpa [List.zipWith_cons_cons, List.any_cons, Bool.or_eq_false_iff] using this
+      rcases hs' with rfl | hs'
+      · exact setSlot_sync ch s u (hw s (by simp)) (fun h => (hch' h).1)
+      · exact ih upd (fun x hx => hw x (by simp [hx])) (fun h => (hch' h).2) s' hs'
+
+theorem forall₂_map_eq {A B C : Type} {R : A → B → Prop} {f : A → C} {g : B → C}
+    (h : ∀ a b, R a b → f a = g b) :
+    ∀ {l : List A} {m : List B}, List.Forall₂ R l m → l.map f = m.map g := by
+  intro l m hr
+  induction hr with
+  | nil => rfl
+  | cons hab _ ih => simp [h _ _ hab, ih]
+
+theorem forall₂_right {A B : Type} {R : A → B → Prop} {Q : B → Prop} (h : ∀ a b, R a b → Q b) :
+    ∀ {l : List A} {m : List B}, List.Forall₂ R l m → ∀ b ∈ m, Q b := by
+  intro l m hr
+  induction hr with
+  | nil => intro b hb; simp at hb
+  | cons hab _ ih =>
+    intro b hb
+    simp only [List.mem_cons] at hb
+    rcases hb with rfl | hb
+    · exact h _ _ hab
+    · exact ih b hb
+
+theorem forall₂_and_left {A B : Type} {R : A → B → Prop} {P : A → Prop} :
+    ∀ {l : List A} {m : List B}, List.Forall₂ R l m → (∀ a ∈ l, P a) →
+      List.Forall₂ (fun a b => R a b ∧ P a) l m := by
+  intro l m hr
+  induction hr with
+  | nil => intro _; exact List.Forall₂.nil
+  | cons hab _ ih =>
+    intro h
+    exact List.Forall₂.cons ⟨hab, h _ (by simp)⟩ (ih (fun q hq => h q (by simp [hq])))
+
+/-- the back-transformed point of a wrapper -/
+noncomputable def origs (pi : ℝ) (w : W ℝ) : List ℝ := w.map (fun s => s.tp.getOriginal pi)
+
+theorem fnVals_eq_origs {pi : ℝ} {w : W ℝ} (h : ∀ s ∈ w, Sync pi s) : fnVals w = origs pi w := by
+  unfold fnVals origs
+  apply List.map_congr_left
+  intro s hs; exact (h s hs).1
+
+/-- slot `s` with its transformed coordinate moved to `x` -/
+noncomputable def Slot.atX (s : Slot ℝ) (x : ℝ) : Slot ℝ := { s with tp := s.tp.setX x }
+
+theorem origs_set (pi : ℝ) (w : W ℝ) (i : Nat) (s : Slot ℝ) (x : ℝ) :
+    origs pi (w.set i (s.atX x)) = (origs pi w).set i ((s.tp.setX x).getOriginal pi) := by
+  unfold origs; rw [List.map_set]; rfl
+
+/-! ### transformed parameters as differentiable functions of their coordinate -/
+
+/-- hypotheses under which the derivative theorems of a transformed parameter apply; they hold for
+everything `init_` builds (`matches_tpwf`) -/
+def TPWF : TP ℝ → Prop
+  | .r t => t.scale = 1
+  | .i t => t.hyper = true ∧ t.scale ≠ 0 ∧ t.lo < t.hi
+  | .p _ => True
+
+theorem matches_tpwf {tiny : ℝ} {sh : Shape ℝ} {tp : TP ℝ} (h : Matches tiny sh tp) (hw : sh.Wide tiny) :
+    TPWF tp := by
+  cases sh <;> cases tp <;> simp only [Matches] at h <;> try exact h.elim
+  all_goals simp only [TPWF, Shape.Wide] at *
+  all_goals first
+    | exact h.2.2
+    | (obtain ⟨h1, h2, h3, h4⟩ := h; exact ⟨h4, by rw [h3]; norm_num, by rw [h1, h2]; exact hw⟩)
+
 end Bpp.Reparam
